@@ -8,13 +8,13 @@ CONSTANTS
   TS = {1,2,3}
   ChemPool = 4
   ChemLayout = "rows_are_layers"
-  UnitAt = "return"
-  ULoop = 1
+  UnitAt = "loop"
+  ULoop = 2
   EvalEffect = "readonly"
   RADS = {8}
   GMS = {64,128}
   Slicing = "layer"
-  Export = TRUE
+  Export = FALSE
 INVARIANT LevelsStrictlyDecreasing
 INVARIANT LayerIsGeometricMean
 INVARIANT ArrayInputOrientation
